@@ -460,6 +460,15 @@ func (vc *FuncVC) callMods(c *ssa.CallCommon, out map[string]bool, depth int) {
 	out["$alloc"] = true
 	if c.IsInvoke() {
 		sp := vc.w.ifaceMethodSpec(c.Value.Type(), c.Method.Name())
+		if sp == nil {
+			// no interface contract: the call is dispatched to the implementations under contract (dispatchInvoke)
+			if impls := vc.implsOf(c); len(impls) > 0 {
+				for _, im := range impls {
+					vc.specMods(vc.w.specFor(im.fn), im.fn, c, out)
+				}
+				return
+			}
+		}
 		vc.specMods(sp, nil, c, out)
 		return
 	}
